@@ -10,7 +10,8 @@ LEVEL_TEXT = ("static: decides the framing protocol in both directions on every 
               "gets a placeholder length that is back-patched with the received count and removed again when the read fails, and the TCP arm never "
               "touches lengths; (write) the flush loop consumes exactly the count the socket write reported (+2 for the UDP prefix), sends one "
               "datagram per frame and asks for write events when TCP bytes remain; zero-length datagrams are dropped before parsing and a truncated "
-              "UDP answer is retried over TCP unless IGNTC. Does not decide equality of delivered responses over all segmentations.")
+              "UDP answer is retried over TCP unless IGNTC. Does not decide equality of delivered responses over all segmentations."
+              " Also decides (COUNT) the byte count is defined on every success, (REREAD) a TCP connection is re-read in one pass only after a full buffer, (READLOSS) whether received bytes can be torn down unparsed (one known finding), (ATOMIC) a failed write leaves no partial frame in the out buffer.")
 LEVEL_NOTE = "trusts clang CFG + extractor and the ares_buf primitives' contracts (tag/rollback/consume), which C19/C02 rules look at separately"
 DESIGN_REF = "DESIGN.md §6/C20"
 EXPLANATION = LEVEL_TEXT
